@@ -182,9 +182,37 @@ def viol06Stuck (isEmpty : Vehicle → Bool) (pre post : Sim) : List String :=
         [s!"C06/stuck-after-arrival| vehicle {v.id} had used up its route before the update phase and is still in the same travelling activity ({v.act.kind}) with an empty route after it"]
       else []
 
+/-- C03, last clause: no instruction diverts a vehicle that is carrying passengers. After an
+    instruction phase (or a single-instruction probe) a vehicle that was in `ServicingTrip` with road
+    ahead is still serving the same request. (Running out of energy happens in the update phase.) -/
+def viol03Divert (pre post : Sim) : List String :=
+  pre.vehicles.flatMap fun p =>
+    match p.act with
+    | .servicingTrip q _ route =>
+      if route.isEmpty then [] else
+      match post.vehicle? p.id with
+      | some v =>
+        (match v.act with
+         | .servicingTrip q' _ _ => if q'.id == q.id then [] else
+             [s!"C03/diverted| vehicle {p.id} carrying request {q.id} was given another trip by an instruction"]
+         | other => [s!"C03/diverted| vehicle {p.id} was carrying request {q.id} with road ahead; after the instruction phase it is {other.kind}: an instruction diverted a vehicle with passengers on board"])
+      | none => []
+    | _ => []
+
 /-- C19 per phase: per vehicle the move events of the phase sum to the odometer's advance and
     the charge events to the energy gained -/
 def viol19Step (pre post : Sim) (evs : List Event) : List String :=
+  -- a pickup or cancel report accounts for a state change: the request has left the waiting set
+  (evs.flatMap fun e => match e with
+    | .pickup v r _ _ =>
+      if (post.request? r).isSome && (pre.request? r).isSome then
+        [s!"C19/pickup-without-change| a pickup of request {r} by vehicle {v} was reported, but the request is still waiting after the phase: the report accounts for no state change"]
+      else []
+    | .cancelRequest r =>
+      if (post.request? r).isSome && (pre.request? r).isSome then
+        [s!"C19/cancel-without-change| a cancellation of request {r} was reported, but the request is still waiting after the phase"]
+      else []
+    | _ => []) ++
   post.vehicles.flatMap fun v =>
     match pre.vehicle? v.id with
     | none => []
